@@ -196,6 +196,9 @@ class Guards:
             if name == "builtins.next" and len(call.args) >= 2:
                 return set()
             if name in ("builtins.str", "builtins.repr", "builtins.format") and call.args:
+                a0 = call.args[0]
+                if isinstance(a0, ast.Attribute) and a0.attr in ("__name__", "__qualname__", "__module__"):
+                    return set()      # names of types are agent-independent strings
                 at = self.t.type_of(call.args[0], fi)
                 if at and all(t in (("ext", "builtins.str"), ("ext", "builtins.int"), ("ext", "builtins.bool"),
                                     ("ext", "builtins.float")) for t in at):
